@@ -672,6 +672,59 @@ def _add_arms(adds, lid, y_index, var: Term = None):
 
 
 
+def affine_coordinate_rules(prog, chk, pid):
+    """PointJacobi.x() / y(): the affine coordinates X / Z^2 and Y / Z^3 modulo p (X and Y themselves when Z = 1).  The returned terms are evaluated with the
+    checker's own arithmetic for points (X, Y, Z) over three small primes, with numbertheory.inverse_mod read as the modular inverse: whatever the spelling
+    (inline, a shared helper with the power as a parameter), the values must be the definition's."""
+    from bfsa.evalterm import NoEval, eval_term
+
+    P = lambda s: "%s.%s" % (pid, s)
+    cls = prog.cls(PJ)
+    for name, col, power in (("x", 0, 2), ("y", 1, 3)):
+        fi = cls.methods[name]
+        where = "%s:%d" % (fi.file, fi.lineno)
+        ex = Exec(prog, policy=lambda e, f, d: False)
+        res = ex.run(fi)
+        rets = [e for e in res.events if e.kind == "return" and e.stack[0] == fi.qualname and len(e.stack) == 1]
+        bad, n = None, 0
+        try:
+            for pv in (23, 101, 65537):
+                for (X, Y, Z) in ((5, 7, 1), (5, 7, 2), (3, 11, pv - 1), (0, 9, 4), (pv - 2, 1, 3), (8, 0, 5)):
+                    coords = (X, Y, Z)
+
+                    def leaf(t, rec):
+                        if t.op == "sub" and is_const(t.args[1]) and isinstance(cval(t.args[1]), int) and "coords" in show(t.args[0], 3):
+                            return coords[cval(t.args[1])]
+                        if t.op == "call" and isinstance(t.args[0], Term) and "inverse_mod" in show(t.args[0], 2) and len(t.args[1]) == 2:
+                            a_, m_ = rec(t.args[1][0]), rec(t.args[1][1])
+                            return pow(a_, -1, m_)
+                        mc = meth_call(t)
+                        if mc and mc[1] == "p" and not mc[2]:
+                            return pv
+                        if t.op == "bin" and t.args[0] == "Pow":
+                            return rec(t.args[1]) ** rec(t.args[2])
+                        return None
+
+                    hit = []
+                    for r in rets:
+                        conds = [(f[1], bool(f[2])) for f in r.ctx if f[0] == "if"]
+                        known = {(unsnap(c_).uid, p_) for c_, p_ in conds}
+                        conds += [(c_, bool(p_)) for c_, p_ in (getattr(r, "facts", ()) or ()) if (unsnap(c_).uid, bool(p_)) not in known]
+                        if all(bool(eval_term(c_, {}, leaf)) == p_ for c_, p_ in conds):
+                            hit.append(r)
+                    if len(hit) != 1:
+                        raise NoEval("%d return paths apply" % len(hit))
+                    got = eval_term(hit[0].d["value"], {}, leaf)
+                    want = coords[col] * pow(Z, -power, pv) % pv
+                    n += 1
+                    if got % pv != want or (Z == 1 and got != coords[col]):
+                        bad = bad or "p = %d, (X, Y, Z) = %s: %s() gives %s, the affine coordinate is %d" % (pv, coords, name, got, want)
+        except (NoEval, TypeError, ValueError, ZeroDivisionError) as e_:
+            bad = "the returned value could not be evaluated (%s)" % e_
+        chk.require(bad is None, P("affine-coordinate-" + name), fi.qualname, "%s * inverse_mod(Z, p) ** %d %% p (%s itself when Z == 1)" % (name.upper(), power, name.upper()), where,
+                    "%s() is the affine coordinate %s / Z^%d modulo p for %d sampled points over three primes" % (name, name.upper(), power, n), bad or "")
+
+
 def mul_rules(prog, chk, pid):
     """k*P by signed-digit recoding: the structural invariants that make the loops compute k*P given that _add / _double are the group
     law (POLY) -- table entries are the AFFINE multiples 2^j*P (they are fed to _add with Z = 1), every recoding step satisfies
@@ -1360,6 +1413,7 @@ def run(prog, chk, tier):
     ecdh_rules(prog, chk, "C17")
     equality_rules(prog, chk, "C17")
     mul_rules(prog, chk, "C17")
+    affine_coordinate_rules(prog, chk, "C17")
     mul_add_rules(prog, chk, "C17")
     c09.validation_chain_rules(prog, chk, "C17")
     c09.decoded_coordinates_rules(prog, chk, "C17")
